@@ -521,7 +521,8 @@ func main() {
 	if shard.IsChild() {
 		var seed int64
 		fmt.Sscan(shard.Arg(), &seed)
-		scratch, _ := os.MkdirTemp("", "verif-c02-")
+		// named after the parent so that it can remove what a killed child left behind
+		scratch, _ := os.MkdirTemp("", fmt.Sprintf("verif-c02-%d-", os.Getppid()))
 		defer os.RemoveAll(scratch)
 		sys := systematicCases()
 		shard.Child(func(i int) any { return runCase(gen(seed, i, sys), scratch, seed) })
@@ -550,6 +551,12 @@ func main() {
 		run.Finish()
 	}
 	results := shard.Parent(total, fmt.Sprint(run.Seed), []string{"GORACE=halt_on_error=0"})
+	if left, _ := filepath.Glob(filepath.Join(os.TempDir(), fmt.Sprintf("verif-c02-%d-*", os.Getpid()))); len(left) > 0 {
+		// scratch directories of children that were killed before their deferred clean-up ran
+		for _, d := range left {
+			os.RemoveAll(d)
+		}
+	}
 	for _, r := range results {
 		if r.Crashed {
 			if r.Idx < 0 {
